@@ -515,6 +515,32 @@ func wsMsgDriver(a *Args) {
 				}
 			}
 		}
+		if h%3 == 2 {
+			// the backend says a few last things and closes the websocket itself, while the client is
+			// between two polls: the polls that follow deliver everything, then report the session closed
+			time.Sleep(30 * time.Millisecond) // (everything the client sent has reached the backend)
+			for k := 0; k < 1+h%12; k++ {
+				sN++
+				m := randomMsg(rng, sN, false, false, 1)
+				sent[sN] = m
+				be.send(label, sN, m)
+			}
+			shape = append(shape, fmt.Sprintf("s%d,backend-closes", 1+h%12))
+			be.closeConn(label)
+			time.Sleep(20 * time.Millisecond)
+			for i := 0; i < 40; i++ {
+				before := polled
+				polled = pollOnce(shim, sid, sent, polled)
+				if polled == before {
+					break // a poll that delivered nothing: the session was reported closed (or the poll failed)
+				}
+			}
+			time.Sleep(10 * time.Millisecond)
+			hx.Emit("Final", "panicked", shim.panicked)
+			cancel()
+			res.Case(strings.Join(shape, ","), map[string]interface{}{"history": shape, "client_msgs": cN, "server_msgs": sN, "injection": inject})
+			continue
+		}
 		for polled < sN {
 			before := polled
 			polled = pollOnce(shim, sid, sent, polled)
